@@ -40,7 +40,7 @@ theorem visitor_route_partial (e : AnnExpr) (hD : D13_starUnpack e = false) : Vi
 
 /-! ## 3. the AST / string route against the runtime route -/
 
-/-- The full statement (not asserted: false on `starUnpack`, `finalQuoted`, `typingDedup`): the AST
+/-- The full statement (not asserted: false on `starUnpack`, `typingDedup`): the AST
 route on `e` computes what the runtime route computes on the object `typing` builds for `e` with
 every `Optional[X]` written `Union[None, X]` — i.e. the two routes agree exactly, except that the
 AST route unites `None` first where `typing` puts it last (member order only). -/
@@ -48,36 +48,36 @@ def RoutesAgree (e : AnnExpr) : Prop := ∀ au, astEval au e = rtEval au (tnorm 
 
 /-- **AST route = runtime route (partial).** For every supported expression (any depth, any
 nesting of classes, None, Any, NewTypes, bare aliases, old/new generics, tuple forms with
-`Unpack[...]`, Literal, `type[]`, Annotated, Optional / Union / `|`, forward-reference strings)
-outside the classes `starUnpack`, `finalQuoted` and the representation class `typingDedup`, the
-two routes yield the same value, the same number of errors and the same `Unpack` flag. -/
+`Unpack[...]`, Literal, `type[]`, Annotated, Final / ClassVar, Optional / Union / `|`,
+forward-reference strings) outside the class `starUnpack` and the representation class
+`typingDedup`, the two routes yield the same value, the same number of errors and the same `Unpack`
+flag. -/
 theorem routes_agree_partial (e : AnnExpr) (hS : Supported e = true)
-    (h1 : D13_starUnpack e = false) (h2 : D13_finalQuoted e = false)
+    (h1 : D13_starUnpack e = false)
     (h3 : R13_typingDedup (swapOpt e) = false) : RoutesAgree e :=
-  agree_main e (supp_mono e hS) (hasStar_starU e h1) h2 h3
+  agree_main e (supp_mono e hS) (hasStar_starU e h1) h3
 
 /-- **All readings coincide exactly when no `Optional[...]` is written (partial).** For a supported
 expression without `Optional[...]` outside the exception classes: AST route = string route =
 runtime route = unquoted in-source = quoted in-source. -/
 theorem all_routes_agree_partial (e : AnnExpr) (hS : Supported e = true)
-    (h1 : D13_starUnpack e = false) (h2 : D13_finalQuoted e = false)
+    (h1 : D13_starUnpack e = false)
     (h3 : R13_typingDedup e = false) (h4 : e.hasOpt = false) (au : Bool) :
     astEval au e = rtEval au (tnorm e) ∧ astEval au (.str e) = rtEval au (tnorm e) ∧
     visEval au e = rtEval au (tnorm e) ∧ visEval au (.str e) = rtEval au (tnorm e) := by
   have hsw := swapOpt_id e h4
-  have h := routes_agree_partial e hS h1 h2 (by rw [hsw]; exact h3) au
+  have h := routes_agree_partial e hS h1 (by rw [hsw]; exact h3) au
   rw [hsw] at h
   exact ⟨h, by simpa [astEval] using h, visitor_route_partial e h1 au, by simpa [visEval] using h⟩
 
 /-- **The same with purely syntactic hypotheses (partial).** The representation class is empty
 wherever `typing` has nothing to normalise: if every `Literal[...]` of `e` has distinct arguments
 and every union of `e` (with `Optional[X]` read as `Union[None, X]`) has at least two arguments,
-none of them a union, no two of them `==`, then — outside `starUnpack` and `finalQuoted` — the
-routes agree. -/
+none of them a union, no two of them `==`, then — outside `starUnpack` — the routes agree. -/
 theorem routes_agree_plain_partial (e : AnnExpr) (hS : Supported e = true)
-    (h1 : D13_starUnpack e = false) (h2 : D13_finalQuoted e = false)
+    (h1 : D13_starUnpack e = false)
     (h3 : plainUnions (swapOpt e) = true) : RoutesAgree e :=
-  routes_agree_partial e hS h1 h2 (plain_R13 _ h3)
+  routes_agree_partial e hS h1 (plain_R13 _ h3)
 
 /-! ### witnesses: the full statements are false in each class -/
 
@@ -104,12 +104,12 @@ theorem witness_starUnpack_visitor : ¬ VisitorAgrees wStar := by
   revert this
   decide
 
-/-- `finalQuoted`: the AST route shows an error and yields `Any`, the runtime route yields `int`. -/
-theorem witness_finalQuoted : ¬ RoutesAgree wFinal := by
-  intro h
-  have := congrArg (fun r => r.map (·.errs)) (h false)
-  revert this
-  decide
+/-- **Regression (former class `finalQuoted`, repaired by d560eeb).** `Final[int]` is read as `int`
+by the AST / string route as by the runtime route, with no error. -/
+theorem regress_finalQuoted :
+    RoutesAgree wFinal ∧ (astEval false wFinal).map (fun r => (r.errs, r.unp)) = some (0, false) ∧
+    (visEval false (.str wFinal)).map (fun r => match r.ty with | .typed c => c | _ => 0) = some C.int :=
+  ⟨routes_agree_partial wFinal (by decide) (by decide) (by decide +kernel), by decide, by decide⟩
 
 /-- `typingDedup` (representation only): `typing` keeps one of the two `==` arguments, so the
 runtime route yields `list[int | str]`; the AST route unites both, `unite_values` compares hashes
@@ -120,7 +120,7 @@ theorem witness_typingDedup : ¬ RoutesAgree wDedup := by
   revert this
   decide +kernel
 
-example : D13_starUnpack wStar = true ∧ D13_finalQuoted wFinal = true := by decide
+example : D13_starUnpack wStar = true := by decide
 example : R13_typingDedup (swapOpt wDedup) = true := by decide +kernel
 
 /-! ### non-vacuity: the hypotheses are met by a non-trivial expression -/
@@ -134,7 +134,7 @@ def exAnn : AnnExpr :=
     (.typ false (.bor (.cls 23) .none)))
     (.lit [.int 1, .int 1, .bool true])
 
-example : Supported exAnn = true ∧ D13_starUnpack exAnn = false ∧ D13_finalQuoted exAnn = false := by decide
+example : Supported exAnn = true ∧ D13_starUnpack exAnn = false := by decide
 example : R13_typingDedup (swapOpt exAnn) = false := by decide +kernel
 /-- `Dict[str, Optional[int]] | list['int'] | Literal[1, True]` meets the syntactic condition -/
 example : plainUnions (swapOpt (.bor (.bor (.gen true C.dict [.cls C.str, .opt (.cls C.int)])
@@ -147,23 +147,23 @@ example : (astEval false exAnn).map (fun r => match r.ty with | .union ts => ts.
 
 /-! ## 4. def headers: parameters from the def node vs from the function object -/
 
-/-- The full statement (not asserted: false on `dunderPosOnly`, `unannotated`, and on the annotation
-classes): both routes yield a signature, and the two have the same parameter names, kinds, default
+/-- The full statement (not asserted: false on `unannotated` and on the annotation classes): both routes yield a signature, and the two have the same parameter names, kinds, default
 presence (and literal), annotation values, error counts, and return annotation. -/
 def ParamsAgree (d : DefArgs) : Prop := (fromDef d).map SigOut.core = (fromRuntime d).map SigOut.core
 
 /-- **Signature of the def node = signature of the function object (partial).** For every header
-CPython compiles (any number of parameters of every kind, any default pattern), not a method,
-without `from __future__ import annotations`, outside `dunderPosOnly` and the representation class
-`unannotated`, whose annotations have no PEP 646 starred member outside strings (no further
+CPython compiles (any number of parameters of every kind, any names — `__x` included —, any default
+pattern), not a method, without `from __future__ import annotations`, outside the representation
+class `unannotated`, whose annotations have no PEP 646 starred member outside strings (no further
 restriction on the annotations): `compute_parameters` (list concatenation + `zip_longest`) and
 `from_signature` over `inspect.signature` (CPython's index-based alignment) produce the same names,
-kinds, defaults, annotation values and return type. -/
+kinds (both apply the PEP 484 `__x` rule to the parameter and everything before it), defaults,
+annotation values and return type. -/
 theorem params_agree_partial (d : DefArgs) (hwf : d.WF = true) (hm : d.methodOf = none)
-    (hfut : d.future = false) (hD : D13_dunderPosOnly d = false) (hR : R13_unannotated d = false)
+    (hfut : d.future = false) (hR : R13_unannotated d = false)
     (hstar : d.annAll (fun e => !e.starU) = true) : ParamsAgree d := by
   simp only [DefArgs.annAll, Bool.and_eq_true, List.all_eq_true] at hstar
-  refine params_agree_core d hwf hm hD hR (fun a ha e he => ?_) (fun e he => ?_)
+  refine params_agree_core d hwf hm hR (fun a ha e he => ?_) (fun e he => ?_)
   · rw [hfut]
     have := hstar.1 a ha
     simp only [PArg.annAll, he] at this
@@ -175,22 +175,22 @@ theorem params_agree_partial (d : DefArgs) (hwf : d.WF = true) (hm : d.methodOf 
 
 /-- an annotation both routes read alike even when the function object only carries its text -/
 def futureOK (e : AnnExpr) : Bool :=
-  Supported e && !D13_starUnpack e && !D13_finalQuoted e && !R13_typingDedup e && !e.hasOpt
+  Supported e && !D13_starUnpack e && !R13_typingDedup e && !e.hasOpt
 
 /-- **The same under `from __future__ import annotations` (partial).** The function object then
 carries the annotation *text*, which the inspect route reads by the AST route; the signatures agree
-when every annotation is supported, outside `starUnpack` / `finalQuoted` / `typingDedup`, and has no
+when every annotation is supported, outside `starUnpack` / `typingDedup`, and has no
 `Optional[...]` (whose member order the AST route reverses). -/
 theorem params_agree_future_partial (d : DefArgs) (hwf : d.WF = true) (hm : d.methodOf = none)
-    (hfut : d.future = true) (hD : D13_dunderPosOnly d = false) (hR : R13_unannotated d = false)
+    (hfut : d.future = true) (hR : R13_unannotated d = false)
     (hann : d.annAll futureOK = true) : ParamsAgree d := by
   simp only [DefArgs.annAll, Bool.and_eq_true, List.all_eq_true] at hann
   have key : ∀ e, futureOK e = true → AnnOK true e := by
     intro e he
     simp only [futureOK, Bool.and_eq_true, Bool.not_eq_true'] at he
-    obtain ⟨⟨⟨⟨h1, h2⟩, h3⟩, h4⟩, h5⟩ := he
-    exact annOK_future e (supp_mono e h1) (hasStar_starU e h2) h3 h4 h5
-  refine params_agree_core d hwf hm hD hR (fun a ha e he => ?_) (fun e he => ?_)
+    obtain ⟨⟨⟨h1, h2⟩, h4⟩, h5⟩ := he
+    exact annOK_future e (supp_mono e h1) (hasStar_starU e h2) h4 h5
+  refine params_agree_core d hwf hm hR (fun a ha e he => ?_) (fun e he => ?_)
   · rw [hfut]
     have := hann.1 a ha
     simp only [PArg.annAll, he] at this
@@ -227,19 +227,21 @@ def wDunder : DefArgs := { hdr0 with args := [noAnn "__x"] }
 /-- `def f(x=1): ...` -/
 def wUnann : DefArgs := { hdr0 with args := [noAnn "x"], defaults := [.lit (.int 1)] }
 
-/-- `dunderPosOnly`: positional-or-keyword from the def node, positional-only from the function object. -/
-theorem witness_dunderPosOnly : ¬ ParamsAgree wDunder := by
-  intro h
-  have := congrArg (fun r => r.map fun s => s.1.map fun p => p.2.1) h
-  revert this
-  decide
+/-- `def f(a, __b, c): ...` -/
+def wDunder2 : DefArgs := { hdr0 with args := [noAnn "a", noAnn "__b", noAnn "c"] }
 
-/-- `dunderPosOnly`, the call `f(__x=1)`: bound next to the def, `incompatible_call` from the
-importing module. -/
-theorem witness_dunderPosOnly_call :
-    (fromDef wDunder).map (fun s => (pyaCall (toBindSig s) [Arg.kw "__x"]).isSome) = some true ∧
-    (fromRuntime wDunder).map (fun s => (pyaCall (toBindSig s) [Arg.kw "__x"]).isSome) = some false := by
-  decide
+/-- **Regression (former class `dunderPosOnly`, repaired by 96446dc).** `def f(__x)`: both routes make
+`__x` positional-only, and `f(__x=1)` is rejected by both; in `def f(a, __b, c)` both make `a` and
+`__b` positional-only and leave `c` positional-or-keyword. -/
+theorem regress_dunderPosOnly :
+    ParamsAgree wDunder ∧ ParamsAgree wDunder2 ∧
+    (fromDef wDunder).map (fun s => s.params.map (·.kind)) = some [Kind.posOnly] ∧
+    (fromDef wDunder2).map (fun s => s.params.map (·.kind)) = some [Kind.posOnly, Kind.posOnly, Kind.posOrKw] ∧
+    (fromDef wDunder).map (fun s => (pyaCall (toBindSig s) [Arg.kw "__x"]).isSome) = some false ∧
+    (fromRuntime wDunder).map (fun s => (pyaCall (toBindSig s) [Arg.kw "__x"]).isSome) = some false :=
+  ⟨params_agree_partial wDunder (by decide) rfl rfl (by decide) (by decide),
+   params_agree_partial wDunder2 (by decide) rfl rfl (by decide) (by decide),
+   by decide, by decide, by decide, by decide⟩
 
 /-- `unannotated` (representation only): `Any | Literal[1]` from the def node, `Any` from the function object. -/
 theorem witness_unannotated : ¬ ParamsAgree wUnann := by
@@ -258,7 +260,7 @@ def exHdr : DefArgs :=
     kwDefaults := [none, some (.lit (.int 1))], kwarg := some ⟨"kw", some (.gen false C.list [.cls C.int])⟩,
     defaults := [.lit .none], returns := some (.tupV false (.cls C.int)), methodOf := none, future := false }
 
-example : exHdr.WF = true ∧ D13_dunderPosOnly exHdr = false ∧ R13_unannotated exHdr = false ∧
+example : exHdr.WF = true ∧ R13_unannotated exHdr = false ∧
     exHdr.annAll (fun e => !e.starU) = true := by decide
 example : (fromDef exHdr).map (fun s => s.params.length) = some 6 := by decide +kernel
 /-- a header under `from __future__ import annotations` meeting the hypotheses -/
